@@ -111,11 +111,18 @@ Bind(items, n, j) ==      \* index of the definition a reference to n at item j 
 
 DuplicateDef(items) == \E i, q \in Defs(items) : i < q /\ NameOf(items, i) = NameOf(items, q) /\ items[i].inst = items[q].inst
                                                   /\ (IsLocalName(NameOf(items, i)) => items[i].reg = items[q].reg)
+(* the names a statement '.extern ...' declares without the file defining them: they export nothing, but they count as declarations *)
+DanglingNames(items, q) == { n \in NsOf(items[q].s) : ~\E i \in Defs(items) : NameOf(items, i) = n /\ items[i].inst = items[q].inst }
+DanglingDecls(items, n) == { q \in DOMAIN items : items[q].s.k = "extern" /\ n \in DanglingNames(items, q) }
+AllDangling(items) == UNION { DanglingNames(items, q) : q \in { x \in DOMAIN items : items[x].s.k = "extern" } }
 DuplicateExport(items) == \/ \E i \in Defs(items) : ExportForms(items, i) > 1
                           \/ \E i, q \in Defs(items) : i < q /\ NameOf(items, i) = NameOf(items, q)
                                                        /\ Exported(items, i) /\ Exported(items, q)
+                          \/ \E n \in AllDangling(items) : \/ Cardinality(DanglingDecls(items, n)) > 1
+                                                           \/ \E i \in Defs(items) : NameOf(items, i) = n /\ Exported(items, i)
 DefInRepeat(items) == \E i \in DOMAIN items : items[i].s.k \in {"label", "const"} /\ items[i].rep
-(* outside the declared domain (not replayed): exporting a name the file does not define *)
+(* '.extern x' of a name the file does not define exports nothing: a reference to x from elsewhere is a reference to an invisible name
+   (first declared outside the domain; taken in after the sixth seeding round - the real assembler agrees) *)
 DanglingExtern(items) == \E q \in DOMAIN items : items[q].s.k = "extern" /\
                             \E n \in NsOf(items[q].s) : ~\E i \in Defs(items) : NameOf(items, i) = n /\ items[i].inst = items[q].inst
 
@@ -400,7 +407,7 @@ Eval(fs) ==
     IN [items |-> items, insts |-> fl.insts, own |-> ob, bases |-> bases, runs |-> runs,
         ok  |-> ob.st # "err" /\ \A b \in bases : runs[b].ok,
         cyc |-> ob.cyc \/ \E b \in bases : runs[b].cyc,
-        skip |-> ob.unsure \/ DanglingExtern(items) \/ ~SymCountsOK(fs) \/ ~CondBaseOK(fs, items) \/ ~SymNamesOK(fs)]
+        skip |-> ob.unsure \/ ~SymCountsOK(fs) \/ ~CondBaseOK(fs, items) \/ ~SymNamesOK(fs)]
 
 (* ------------------------------------------------------------------ alphabets (cfg: Alphabet <- XxxAlphabet) *)
 I0(op)          == [k |-> "insn", op |-> op]
@@ -524,6 +531,7 @@ StructAlphabet ==      \* C16: .repeat bodies (own '.', impure operators, hoiste
   { Rep(0, << I0("nop") >>), Rep(1, << W(<<Dot>>) >>), Rep(3, << W(<< Bin("/", Dot, Num(2)) >>) >>), Rep(2, << W(<< Bin("%", Dot, Num(4)), Bin("<<", Dot, Num(1)), Bin(">>", Dot, Num(1)) >>) >>),
     Rep(2, << I1("movx", Bin("+", Num(2), Num(2))) >>), Rep(2, << I1("movx", Bin("+", Sym("c"), Num(2))), I1("movr", Dot) >>),
     Rep(2, << I1("movx", Neg(Sym("c"))) >>), Rep(3, << I1("movx", Bin("+", Neg(Sym("c")), Num(2))), By(<< Num(1) >>) >>),
+    I1("movx", Bin("+", Sym("c"), Bin("*", Num(2), Num(3)))), Rep(2, << I1("movx", Bin("-", Sym("c"), Bin("*", Num(2), Sym("c")))) >>),
     Rep(2, << I1("br", Sym("1")) >>), Rep(2, << Rep(2, << W(<<Dot>>), By(<<Num(1)>>) >>) >>), Rep(3, << [k |-> "even"], By(<< Bin("-", Dot, A) >>) >>),
     Rep(2, << I1("movi", Bin("/", Bin("-", Dot, A), Num(2))), I1("sob", A) >>), Rep(2, << Blkb(Bin("%", Dot, Num(4))) >>),
     Rep(2, << Lab("z") >>), Rep(2, << Const("z", Num(1)) >>), Rep(3, << W(<<>>), I0("nop") >>), Rep(2, << By(<<>>), [k |-> "dword", es |-> <<>>] >>),
